@@ -525,14 +525,15 @@ func expandRequestData(testCase *conformancev1.TestCase) error {
 				// it's the right size
 				break
 			}
-			if adjustCount >= 2 {
-				// Oof. If we have to adjust it more than 2x, then we're at a weird boundary
-				// condition that can't easily be expanded to the exact size. This is highly
+			if adjustCount >= 3 {
+				// Oof. If we have to adjust it more than 3x, then we're at a weird boundary
+				// condition that can't be expanded to the exact size. This is highly
 				// unlikely, but can happen if adding the one byte of padding causes the data
 				// length to suddenly require one more byte to encode as a varint. In that
 				// case, adding one byte of data adds two bytes to the size. So if we were
 				// only one byte away from the desired size, the padded size pushes us one
-				// byte over.
+				// byte over. (The third adjustment is needed when the first one overshoots
+				// across such a boundary and the correction lands one byte short of it.)
 				return fmt.Errorf("request message #%d: can't pad to exactly %d bytes; closest we can get is %d",
 					i+1, totalSize, size)
 			}
